@@ -27,11 +27,18 @@ META = dict(
                "class whose own constructor raises a non-Exception BaseException propagates it: excluded in C20_outcome_plain, "
                "characterised in C20_outcome. pydantic's lax-mode acceptance table (which field values are well-typed) is the "
                "harness' choice of realisations, checked by the run, not modelled. The pickle load path runs no validator "
-               "(BaseModel.__setstate__), so the gate is not on it. Trusted: Coq kernel + vm_compute; the trap objects, the "
+               "(BaseModel.__setstate__), so the gate is not on it. Exception classes taskiq ships itself (every one reachable "
+               "through a sys.modules key taskiq / taskiq.*, listed by the driver on every run) are declared with what the plain "
+               "Python call cls(*args) does per argument count (CtorTable: accepted counts and the values the constructor adds to "
+               ".args by itself, probed outside any load); their stored arguments may name trap objects (module name, class name, "
+               "args, text - the shape taskiq's own wrapper class stores) and are data to the model. "
+               "Trusted: Coq kernel + vm_compute; the trap objects, the "
                "Exception.__subclasses__() / sys.modules snapshots and the canonicaliser of the driver.",
     rule="case = (environment variant, entry point, payload tree with realisation choices); generated per seed; non-trivial iff "
          "some node's name resolves to a non-exception object or the tree has nesting depth >= 1; distinct by canonical JSON",
     trusted_base=["model: coq/theories/LoadGate.v (hand-written transcription of exception_to_python and its callers)",
+                  "reference behaviour of the constructors of taskiq's own exception classes: the plain call cls(*args) in the "
+                  "driver process, outside any load (loadgate_driver.probe_ctor)",
                   "trap objects, observation window and canonicaliser: harness/drivers/loadgate_driver.py",
                   "pydantic validation of Optional[Union[BaseException, ExceptionRepr]] (exercised, summarised as well-typed / "
                   "ill-typed per field), CPython type() name check, getattr"],
@@ -168,6 +175,84 @@ def real_modules():
     ]
 
 
+# --------------------------------------------------------------------------- what taskiq itself ships
+TQ_BASE, ARG_TAB, ARG_CONST = 3000, 1000, 5000
+WRAPPER_REF = ("taskiq.serialization", "_UnpickleableExceptionWrapper")
+
+
+def known_real_paths():
+    out = []
+
+    def rec(mod, path, sp):
+        out.append([mod, path, sp["id"]])
+        for s_, c in sp["attrs"]:
+            if not c.get("patch"):
+                rec(mod, path + [s_], c)
+    for m in real_modules():
+        rec(m["name"], [], m["obj"])
+    return out
+
+
+def canon(v):
+    return json.dumps(v, sort_keys=True)
+
+
+def taskiq_view(disc):
+    """the declared view of taskiq's own modules, built from the driver's discovery (object identities, Python's own
+    classification, and what the plain call cls(*args) does per argument count): (mods, argconst, stats)"""
+    declared = {}
+    for m in real_modules():
+        for _m, _p, sp in env_paths(dict(mods=[m])):
+            declared.setdefault(sp["id"], sp)
+    argconst, codes, stats = [], {}, dict(classes=set(), dropped=set(), paths=0)
+
+    def code(v):
+        if canon(v) not in codes:
+            codes[canon(v)] = ARG_CONST + len(argconst)
+            argconst.append(v)
+        return codes[canon(v)]
+
+    def spec(e):
+        i = e["obj"]
+        if i in declared:
+            sp = {k: v for k, v in declared[i].items() if k != "attrs"}
+        else:
+            sp = dict(id=i, kind=e["kind"], auto=True)
+            if e["kind"] == "inst":
+                sp["callable"] = bool(e["callable"])
+            if e["kind"] == "exc":
+                rows = e["rows"]
+                if any(x[0] == "skip" for x in rows):
+                    stats["dropped"].add(e["label"])
+                    return None
+                if all(x == ["ok", []] for x in rows):
+                    sp["ctor"] = "any"
+                elif all(x[0] == "raises" for x in rows):
+                    sp["ctor"] = "never"
+                else:
+                    sp["ctor"] = ["table", [[n, [code(v) for v in x[1]]] for n, x in enumerate(rows) if x[0] == "ok"]]
+                stats["classes"].add(e["label"])
+        sp["attrs"] = []
+        for c in e["children"]:
+            csp = spec(c)
+            if csp is not None:
+                sp["attrs"].append([c["seg"], csp])
+                stats["paths"] += csp["kind"] == "exc"
+        return sp
+    mods = [dict(name=m["name"], real_module=True, view="taskiq",
+                 obj=spec(dict(obj=m["obj"], kind="module", children=m["children"]))) for m in disc["modules"]]
+    return mods, argconst, dict(classes=sorted(stats["classes"]), dropped=sorted(stats["dropped"]), exception_paths=stats["paths"])
+
+
+def accepted_counts(sp):
+    ct = sp.get("ctor", "any")
+    if ct == "any":
+        return [1, 2, 3, 4, 4, 5]
+    if isinstance(ct, list):
+        return [ct[1]] if ct[0] == "arity" else [n for n, _x in ct[1]]
+    return []
+
+
 def core_module(r, ids):
     """one object of every kind / constructor behaviour, so that every model branch is reachable in every environment"""
     def exc(ctor, **kw):
@@ -191,7 +276,7 @@ def core_module(r, ids):
     return dict(id=ids.hooked(), kind="module", attrs=attrs)
 
 
-def gen_env(r, k):
+def gen_env(r, k, view=None):
     ids = Ids()
     mods = [dict(name="lgm%d_core" % k, obj=core_module(r, ids))]
     for j in range(r.randint(2, 3)):
@@ -203,11 +288,14 @@ def gen_env(r, k):
     mods.append(dict(name=parent["name"] + ".sub", obj=sub))
     if r.random() < .6 and all(s != "sub" for s, _ in parent["obj"]["attrs"]):
         parent["obj"]["attrs"].append(["sub", sub])
+    if view:
+        return dict(mods=mods + real_modules() + view[0], argconst=view[1])
     return dict(mods=mods + real_modules())
 
 
-def env_paths(env):
-    """every declared object with the (module key, attribute path) that reaches it"""
+def env_paths(env, view=None):
+    """every declared object with the (module key, attribute path) that reaches it (view: None = all modules,
+    "" = all but the discovered taskiq view, "taskiq" = that view only)"""
     out = []
 
     def rec(mod, path, sp):
@@ -215,7 +303,89 @@ def env_paths(env):
         for s, c in sp["attrs"]:
             rec(mod, path + [s], c)
     for m in env["mods"]:
-        rec(m["name"], [], m["obj"])
+        if view is None or m.get("view", "") == view:
+            rec(m["name"], [], m["obj"])
+    return out
+
+
+# --------------------------------------------------------------------------- arguments that mention trap objects
+class Tab:
+    """the case's own argument table: JSON value <-> argument number (values the environment's constant table already
+    holds keep that number)"""
+
+    def __init__(self, argconst=()):
+        self.const = {canon(v): ARG_CONST + i for i, v in enumerate(argconst)}
+        self.tab, self.codes = [], {}
+
+    def code(self, v):
+        assert not (isinstance(v, str) and v.startswith("echo ")), v
+        k = canon(v)
+        if k in self.const:
+            return self.const[k]
+        if k not in self.codes:
+            self.codes[k] = ARG_TAB + len(self.tab)
+            self.tab.append(v)
+        return self.codes[k]
+
+
+PATCHED = [("subprocess", ["Popen"]), ("os", ["system"]), ("builtins", ["eval"]), ("subprocess", ["run"]), ("builtins", ["exec"])]
+
+
+def trap_target(r, paths):
+    """(module key, dotted attribute name) of a planted / patched object, leaning towards what a single getattr on a
+    loaded module reaches and towards classes that are no exception classes"""
+    tops = [p for p in paths if len(p[1]) == 1 and p[2]["id"] < 1000]
+    k = r.random()
+    if k < .45:
+        pool = [p for p in tops if p[2]["kind"] == "class"] or tops
+    elif k < .7:
+        pool = [p for p in tops if p[2]["kind"] != "exc"] or tops
+    elif k < .88:
+        pool = [p for p in paths if p[1] and p[2]["id"] < 1000]
+    else:
+        pool = PATCHED
+    t = r.choice(pool)
+    return t[0], ".".join(t[1])
+
+
+def rich_single(r, paths, depth=0):
+    md, nm = trap_target(r, paths)
+    k = r.randrange(7 if depth < 2 else 3)
+    if k == 0:
+        return md + "." + nm
+    if k == 1:
+        return md + ":" + nm
+    if k == 2:
+        return [md, nm]
+    inner, text = rich_inner(r, paths, depth + 1), r.choice(["stored text", "", "boom", md + "." + nm])
+    if k == 3:
+        return [md, nm, inner, text]
+    if k == 4:
+        return dict(exc_type=nm, exc_module=md, exc_message=inner)
+    if k == 5:
+        return dict(exc_type=WRAPPER_REF[1], exc_module=WRAPPER_REF[0], exc_message=[md, nm, inner, text])
+    return dict(exc_type="ValueError", exc_module="builtins", exc_message=["outer"],
+                exc_cause=dict(exc_type=nm, exc_module=md, exc_message=inner))
+
+
+def rich_inner(r, paths, depth):
+    out = []
+    for _ in range(r.choice([0, 1, 1, 2])):
+        out.append("echo %d" % r.randint(0, 40) if depth >= 2 or r.random() < .75 else rich_single(r, paths, depth))
+    return out
+
+
+def rich_args(r, paths, n, tab):
+    """n argument numbers whose values name trap objects the way taskiq's own wrapper stores a class:
+    (module, class name, args, text) and its prefixes, then single values of every shape"""
+    if n == 0:
+        return []
+    md, nm = trap_target(r, paths)
+    text = r.choice(["stored text", "", "boom", md + "." + nm])
+    vals = [rich_single(r, paths)] if n == 1 else [md, nm, rich_inner(r, paths, 1), text][:min(n, 4)]
+    out = [tab.code(v) for v in vals]
+    while len(out) < n:
+        out.append(r.randint(0, 40) if r.random() < .5 else tab.code(rich_single(r, paths)))
     return out
 
 
@@ -230,12 +400,25 @@ JUNK = [0, "", "abc", [], [1], False, True, 1.5, {}, {"exc_type": "ValueError"}]
 SUP_AS = {True: [True, 1, "yes", "true", "1", "on"], False: [False, 0, "no", "off", MISSING, MISSING]}
 
 
-def gen_node(r, env, paths, entry, depth, cat=None):
-    """one well-formed dict node (children filled by the caller)"""
-    cat = cat or r.choice(["exc"] * 9 + ["nonexc"] * 5 + ["unres"] * 5 + ["badname"])
+def gen_node(r, env, paths, entry, depth, cat=None, gx=None):
+    """one well-formed dict node (children filled by the caller); gx = (paths of the taskiq view, the case's Tab)"""
+    tq, tab = gx or ([], None)
+    cat = cat or r.choice(["exc"] * 9 + ["nonexc"] * 5 + ["unres"] * 5 + ["badname"] + (["tq"] * 2 if tq else []))
     excs = [p for p in paths if p[2]["kind"] == "exc" and p[1]]
     nonexc = [p for p in paths if p[2]["kind"] != "exc"]
-    if cat == "exc":
+    nargs = rich = None
+    if cat == "tq":
+        # names that resolve into what taskiq itself ships: its exception classes (constructors that do more than store
+        # their arguments) through every module that exposes them, now and then its functions / classes / modules
+        tqexc = [p for p in tq if p[2]["kind"] == "exc"]
+        wide = [p for p in tqexc if max(accepted_counts(p[2]) or [0]) >= 2]
+        k = r.random()
+        mod, path, sp = r.choice(wide if k < .45 and wide else tqexc if k < .8 and tqexc else tq)
+        md, ty = mod, ".".join(path)
+        acc = accepted_counts(sp) if sp["kind"] == "exc" else []
+        nargs = r.choice(acc) if acc and r.random() < .8 else r.choice([0, 1, 2, 3, 4, 5])
+        rich = r.random() < .85
+    elif cat == "exc":
         mod, path, _sp = r.choice(excs)
         md, ty = mod, ".".join(path)
     elif cat == "nonexc":
@@ -257,8 +440,12 @@ def gen_node(r, env, paths, entry, depth, cat=None):
     else:
         bad = "\x00" if entry == "json" or r.random() < .5 else "\ud800"
         md, ty = r.choice([None, "lg_absent_mod", r.choice(paths)[0]]), r.choice(["A%sB", "%s", "a.%s"]) % bad
-    nargs = r.choice([0, 1, 1, 2, 2, 3, 5])
-    args = [r.randint(0, 40) for _ in range(nargs)]
+    if nargs is None:
+        nargs = r.choice([0, 1, 1, 2, 2, 3, 5])
+        rich = tab is not None and r.random() < .06     # any class / synthetic class / refused object with such arguments
+        if rich and r.random() < .5:
+            nargs = r.choice([3, 4, 4])
+    args = rich_args(r, paths, nargs, tab) if rich and tab is not None else [r.randint(0, 40) for _ in range(nargs)]
     sup = r.random() < .5
     node = dict(k="dict", ty=dict(ok=ty), md=dict(ok=md), args=dict(ok=args), sup=dict(ok=sup, **{"as": r.choice(SUP_AS[sup])}),
                 cause=dict(k="none"), ctx=dict(k="none"))
@@ -274,32 +461,37 @@ def gen_node(r, env, paths, entry, depth, cat=None):
     return node
 
 
-def gen_inst(r, ids):
+def gen_inst(r, ids, paths=None, gx=None):
     if r.random() < .45:
         bad = r.random() < .12
         nm = r.choice(["Wrapped", "a.b", "", "N\x00m" if bad else "Nm", "Ü"])
-        return dict(k="inst", i=dict(wrapper=[nm, r.choice(["mm", "some.module", "builtins", ""]),
-                                              [r.randint(0, 40) for _ in range(r.randint(0, 2))]]))
+        md = r.choice(["mm", "some.module", "builtins", ""])
+        args = [r.randint(0, 40) for _ in range(r.randint(0, 2))]
+        if gx and paths and r.random() < .4:            # a stored wrapper instance that names a loaded trap object
+            md, nm = trap_target(r, paths)
+            if r.random() < .4:
+                args = rich_args(r, paths, r.randint(1, 3), gx[1])
+        return dict(k="inst", i=dict(wrapper=[nm, md, args]))
     ids[0] += 1
     return dict(k="inst", i=dict(plain=ids[0], cls=r.choice(["ValueError", "KeyError", "KeyboardInterrupt", "Exception"]),
                                  chain=r.random() < .3))
 
 
-def gen_tree(r, env, paths, entry, depth, ids, top=True):
+def gen_tree(r, env, paths, entry, depth, ids, top=True, gx=None):
     if not top:
         k = r.random()
         if k < .08 and entry != "json":
-            return gen_inst(r, ids)
+            return gen_inst(r, ids, paths, gx)
     # nested nodes lean towards loadable names so that deep trees are actually walked
     cat = None if top or r.random() < .45 else r.choice(["exc", "exc", "unres"])
-    node = gen_node(r, env, paths, entry, depth, cat)
+    node = gen_node(r, env, paths, entry, depth, cat, gx)
     if depth > 0:
         if r.random() < .7:
-            node["cause"] = gen_tree(r, env, paths, entry, depth - 1, ids, False)
+            node["cause"] = gen_tree(r, env, paths, entry, depth - 1, ids, False, gx)
         if r.random() < .5:
-            node["ctx"] = gen_tree(r, env, paths, entry, depth - 1, ids, False)
+            node["ctx"] = gen_tree(r, env, paths, entry, depth - 1, ids, False, gx)
         if node["cause"]["k"] == "none" and node["ctx"]["k"] == "none":
-            node[r.choice(["cause", "ctx"])] = gen_tree(r, env, paths, entry, depth - 1, ids, False)
+            node[r.choice(["cause", "ctx"])] = gen_tree(r, env, paths, entry, depth - 1, ids, False, gx)
     for key in ("cause", "ctx"):
         if node[key]["k"] == "none":
             node[key]["omit"] = r.random() < .6
@@ -358,7 +550,8 @@ def has_bad_name(raw):
 
 def gen_case(r, envs):
     k = r.randrange(len(envs))
-    env, paths = envs[k]
+    env, paths, tq = envs[k]
+    gx = (tq, Tab(env.get("argconst", ())))
     entry = r.choice(ENTRIES)
     d = r.random()
     depth = 0 if d < .3 else 1 if d < .6 else 2 if d < .8 else 3 if d < .92 else 4
@@ -367,14 +560,14 @@ def gen_case(r, envs):
     if t < .02:
         raw = dict(k="none")
     elif t < .06 and entry != "json":
-        raw = gen_inst(r, ids)
+        raw = gen_inst(r, ids, paths, gx)
     else:
-        raw = gen_tree(r, env, paths, entry, depth, ids)
+        raw = gen_tree(r, env, paths, entry, depth, ids, gx=gx)
         if r.random() < .15:
             raw = malform(r, raw, entry)
         if entry != "json":
             mark_as_obj(r, raw)
-    return dict(env_id=k, env=env, entry=entry, raw=raw)
+    return dict(env_id=k, env=env, entry=entry, raw=raw, argtab=gx[1].tab)
 
 
 # --------------------------------------------------------------------------- direct oracle (independent of the model)
@@ -472,8 +665,18 @@ def oracle(case, obs):
     return out
 
 
+def rich_nodes(raw):
+    """nodes one of whose arguments is a value of the case's own table (it names a trap object)"""
+    out = []
+    for _, n in nodes_of(raw):
+        a = n["args"].get("ok", []) if n["k"] == "dict" else n["i"]["wrapper"][2] if n["k"] == "inst" and "wrapper" in n["i"] else []
+        if any(isinstance(x, int) and x >= ARG_TAB for x in a):
+            out.append(n)
+    return out
+
+
 def nontrivial(case):
-    if depth_of(case["raw"]) >= 2:
+    if depth_of(case["raw"]) >= 2 or rich_nodes(case["raw"]):
         return True
     for _, n in nodes_of(case["raw"]):
         if n["k"] == "dict" and "ok" in n["ty"] and "ok" in n["md"] and isinstance(n["ty"]["ok"], str):
@@ -494,6 +697,8 @@ def ckind(sp):
     k = sp["kind"]
     if k == "exc":
         c = sp.get("ctor", "any")
+        if isinstance(c, list) and c[0] == "table":
+            return "(KExc (CtorTable [%s]))" % "; ".join("(%d%%nat, %s)" % (n, cargs(x)) for n, x in c[1])
         return "(KExc %s)" % ("(CtorArity %d%%nat)" % c[1] if isinstance(c, list) else
                               {"any": "CtorAny", "never": "CtorNever", "base": "CtorRaisesBase"}[c])
     if k == "inst":
@@ -505,8 +710,18 @@ def cobj(sp):
     return "(Obj %d %s [%s])" % (sp["id"], ckind(sp), "; ".join("(%s, %s)" % (cname(s), cobj(c)) for s, c in sp["attrs"]))
 
 
-def cenv(env):
-    return "[" + ";\n  ".join("(%s, %s)" % (cname(m["name"]), cobj(m["obj"])) for m in env["mods"]) + "]"
+def cenv(env, shared=None):
+    """shared: dict filled with the definitions of the discovered taskiq view (the same in every environment of a run),
+    so that its literal is written once per Coq file"""
+    own = [m for m in env["mods"] if shared is None or not m.get("view")]
+    lit = "[" + ";\n  ".join("(%s, %s)" % (cname(m["name"]), cobj(m["obj"])) for m in own) + "]"
+    view = [m for m in env["mods"] if m.get("view")] if shared is not None else []
+    if view:
+        key = canon(view)
+        if key not in shared:
+            shared[key] = ("tq_view_%d" % len(shared), cenv(dict(mods=view)))
+        lit = "(%s ++ %s)" % (lit, shared[key][0])
+    return lit
 
 
 def cfld(f, pr):
@@ -583,7 +798,10 @@ CENTRY = {"direct": "EDirect", "validate": "EValidate", "json": "EJson"}
 
 # --------------------------------------------------------------------------- run
 def driver_case(c):
-    return dict(env=c["env"], entry=c["entry"], raw=c["raw"])
+    d = dict(env=c["env"], entry=c["entry"], raw=c["raw"])
+    if c.get("argtab"):
+        d["argtab"] = c["argtab"]
+    return d
 
 
 def explore(ctx, rep, cases, label):
@@ -609,7 +827,9 @@ def explore(ctx, rep, cases, label):
             envs[key] = (len(envs), c["env"])
         lits.append("(%s, env_%d, %s, %s, %s)" % (CENTRY[c["entry"]], envs[key][0], craw(c["raw"]), cres(o["res"]), ceff(o)))
         keep.append(c)
-    header = COQ_HEADER + "".join("Definition env_%d : env :=\n  %s.\n" % (i, cenv(e)) for i, e in envs.values())
+    shared = {}
+    defs = "".join("Definition env_%d : env :=\n  %s.\n" % (i, cenv(e, shared)) for i, e in envs.values())
+    header = COQ_HEADER + "".join("Definition %s : env :=\n  %s.\n" % nv for nv in shared.values()) + defs
     bad, sfails, _ = C.coq_eval(ctx, label, header, lits, COQ_BODY, shard=300)
     rep.corr(label, len(lits), bad, sfails, lambda i: driver_case(keep[i]))
     rep.traces += len(lits) - len(bad)
@@ -636,10 +856,29 @@ def coverage(rep, c, o):
                                         else "not-a-type:" + sp["kind"] + (":callable" if sp.get("callable") else "")))
             if sp["kind"] == "exc":
                 ct = sp.get("ctor", "any")
-                rep.count("branch:ctor=" + ("arity-" + ("match" if len(n["args"]["ok"]) == ct[1] else "mismatch")
-                                            if isinstance(ct, list) else ct))
+                if isinstance(ct, list) and ct[0] == "table":
+                    hit = [x for k, x in ct[1] if k == len(n["args"]["ok"])]
+                    rep.count("branch:ctor=table-" + ("miss" if not hit else "hit+extra" if hit[0] else "hit"))
+                else:
+                    rep.count("branch:ctor=" + ("arity-" + ("match" if len(n["args"]["ok"]) == ct[1] else "mismatch")
+                                                if isinstance(ct, list) else ct))
+            if sp["id"] >= TQ_BASE or (n["md"]["ok"] or "").split(".")[0] == "taskiq":
+                rep.count("kind:taskiq-own:" + sp["kind"])
+                if (n["md"]["ok"], ty.split(".")[-1]) == WRAPPER_REF or ty.split(".")[-1] == WRAPPER_REF[1]:
+                    rep.count("kind:taskiq-own:wrapper-class")
             if "." in ty:
                 rep.count("branch:dotted-path")
+    for n in rich_nodes(c["raw"]):
+        rep.count("args:name-a-trap")
+        if n["k"] == "inst":
+            rep.count("args:name-a-trap:stored-wrapper-instance")
+        else:
+            how, sp = py_resolve(c["env"], n["md"]["ok"], n["ty"]["ok"])
+            rep.count("args:name-a-trap:" + ("unresolved" if how != "found" else "taskiq-own-class" if sp["id"] >= TQ_BASE
+                                             and sp["kind"] == "exc" else sp["kind"]))
+    for _, n in nodes_of(c["raw"]):
+        if n["k"] == "inst" and "wrapper" in n["i"] and py_resolve(c["env"], n["i"]["wrapper"][1], n["i"]["wrapper"][0])[0] == "found":
+            rep.count("branch:restore=wrapper-naming-a-loaded-object")
     for e in o["eff"]:
         rep.count("effect:" + e[0])
 
@@ -654,9 +893,17 @@ def grid_cases(env):
             (m, "err", 0), (m, "err.__class__", 1), (m, "part", 0), (m, "part.Deep", 1), ("builtins", "eval", 1),
             ("os", "system", 1), ("builtins", "ValueError", 1), ("lg_absent_mod", "Boom", 1), ("lg_unloaded_0", "Boom", 1),
             (m, "zz_absent", 1), (m, "TrapExc.", 0), (None, "Synth", 1), (None, "A\x00B", 0)]
+    tab = Tab(env.get("argconst", ()))
+    if any(mm["name"] == WRAPPER_REF[0] for mm in env["mods"]):
+        # taskiq's own wrapper class told to stand for the planted non-exception class; a template class of taskiq.exceptions
+        reps += [WRAPPER_REF + ([tab.code(v) for v in (m, "Holder", ["echo 1"], "boom")],), ("taskiq.exceptions", "TaskiqError", 0)]
 
     def node(rep, tag):
         md, ty, n = rep
+        if isinstance(n, list):
+            return dict(k="dict", ty=dict(ok=ty), md=dict(ok=md), args=dict(ok=list(n)),
+                        sup=dict(ok=bool(tag % 2), **{"as": bool(tag % 2)}), cause=dict(k="none", omit=True),
+                        ctx=dict(k="none", omit=True))
         return dict(k="dict", ty=dict(ok=ty), md=dict(ok=md), args=dict(ok=[tag + i for i in range(n)]),
                     sup=dict(ok=bool(tag % 2), **{"as": bool(tag % 2)}), cause=dict(k="none", omit=True),
                     ctx=dict(k="none", omit=True))
@@ -670,20 +917,35 @@ def grid_cases(env):
                         raw["cause"] = node(b, 10)
                     if c:
                         raw["ctx"] = node(c, 20)
-                    out.append(dict(env=env, entry=entry, raw=raw))
+                    out.append(dict(env=env, entry=entry, raw=raw, argtab=tab.tab))
     return out
 
 
 SPECIALS = [dict(special="lazy_getattr"), dict(special="forged_class"), dict(special="pickle_path")]
 
 
-def make_envs(ctx, n):
+def make_envs(ctx, n, view=None):
     r = ctx.sub_rng("env")
     out = []
     for k in range(n):
-        e = gen_env(r, k)
-        out.append((e, env_paths(e)))
+        e = gen_env(r, k, view)
+        out.append((e, env_paths(e, ""), env_paths(e, "taskiq")))
     return out
+
+
+def discover_view(ctx, rep):
+    """ask the implementation side what taskiq ships (exception classes under sys.modules keys taskiq.*, the attributes of
+    the modules the load path lives in) and how the plain call cls(*args) behaves for each of those classes"""
+    d = C.run_driver(ctx, "loadgate_driver", [dict(special="discover", known=known_real_paths(), base=TQ_BASE)], nproc=1)[0]
+    if "_crash" in d:
+        rep.fail("driver crashed while listing taskiq's own exception classes", dict(special="discover"),
+                 observed=d["_crash"][-600:], sig=dict(clause="crash"))
+        return None
+    mods, argconst, stats = taskiq_view(d)
+    rep.extra["taskiq_view"] = dict(modules=len(mods), exception_classes=stats["classes"], exception_paths=stats["exception_paths"],
+                                    dropped_because_the_plain_call_is_not_a_function_of_the_count=stats["dropped"],
+                                    constants_added_by_constructors=argconst)
+    return mods, argconst
 
 
 def run(ctx):
@@ -692,20 +954,22 @@ def run(ctx):
     corpus = [c for _name, c in C.load_corpus("C20")]
     if corpus:
         explore(ctx, rep, corpus, "corpus")
-    envs = make_envs(ctx, ctx.n(8, 40))
+    view = discover_view(ctx, rep)
+    envs = make_envs(ctx, ctx.n(8, 40), view)
     r = ctx.sub_rng("gen")
     cases = [gen_case(r, envs) for _ in range(ctx.n(2400, 30000))]
     broken = explore(ctx, rep, cases, "main")
     if not ctx.quick:
         grid = grid_cases(envs[0][0])
         broken = explore(ctx, rep, grid, "grid") or broken
-        rep.extra["small_scope_exhaustive"] = ("%d cases: every (top, cause, context) combination of 24 representative nodes "
-                                               "(one per model branch) x 3 entry points on environment 0" % len(grid))
+        rep.extra["small_scope_exhaustive"] = ("%d cases: every (top, cause, context) combination of 26 representative nodes "
+                                               "(one per model branch, taskiq's own wrapper class naming a planted class, a "
+                                               "template class of taskiq.exceptions) x 3 entry points on environment 0" % len(grid))
     sp = C.run_driver(ctx, "loadgate_driver", SPECIALS, nproc=1)
     rep.extra["observations_outside_scope"] = sp
     if (broken or any(not o["ok"] for o in rep.obligations)) and not rep.failures:
         r2 = ctx.sub_rng("search")
-        envs2 = make_envs(ctx, 12)
+        envs2 = make_envs(ctx, 12, view)
         explore(ctx, rep, [gen_case(r2, envs2) for _ in range(ctx.n(12000, 60000))], "search")
     return rep.finish()
 
